@@ -23,7 +23,7 @@ MAX_DEATHS_PER_SHARD = 6   # a tree that kills the worker this often is broken; 
 sys.path.insert(0, os.path.join(VERIF, "lib"))
 from props import PROPS  # noqa: E402
 
-FORBIDDEN = re.compile(r"\b(Admitted|admit|Axiom|Axioms|Parameter|Parameters|Conjecture|Conjectures|Hypothesis|Hypotheses|Variable|Variables)\b|Unset Guard|bypass_check|type-in-type|impredicative-set|Admit Obligations|Unset Positivity|Unset Universe")
+FORBIDDEN = re.compile(r"\b(Admitted|admit|Axiom|Axioms|Parameter|Parameters|Conjecture|Conjectures|Hypothesis|Hypotheses|Variable|Variables)\b|Unset Guard|bypass_check|type-in-type|impredicative-set|Admit Obligations|Unset Positivity|Unset Universe|\b(Abort|Undo|Restart)\b|\bProof\s+(?!using\b|with\b)[^.\s]")
 AXIOM_ALLOW = []  # names of standard-library axioms a theorem may depend on; target: none
 
 
@@ -142,14 +142,48 @@ def forbidden_scan():
     return hits
 
 
+GEN_OUTPUTS = {"gen_layout.py": "gen/Layout.vo", "gen_layout_extra.py": "gen/LayoutExtra.vo", "gen_consts.py": "gen/Consts.vo",
+               "gen_leaf.py": "gen/Leaf.vo", "gen_strtab.py": "Model/WrapStrTab.vo"}
+REGENERATED = {"Model/WrapStrTab.v"}   # mirrors of source tables written by tools/gen_*.py outside coq/gen: rebuilt on every run, not pinned
+
+
 def run_generators(log):
-    ok = True
+    """Runs every tools/gen_*.py against the current source.  Returns the .vo targets of the generators that failed: a
+    failure concerns exactly the properties whose dependency closure holds that file (a stale generated file must
+    not pass for them); the others are untouched by it."""
+    failed = []
     for tool in sorted(glob.glob(os.path.join(VERIF, "tools", "gen_*.py"))):
-        rc, out = sh([sys.executable, tool, REPO, os.path.join(COQ, "gen")], timeout=120)
+        try:
+            rc, out = sh([sys.executable, tool, REPO, os.path.join(COQ, "gen")], timeout=300)
+        except subprocess.TimeoutExpired:
+            rc, out = 124, "timed out"
         if rc != 0:
-            ok = False
+            failed.append(GEN_OUTPUTS.get(os.path.basename(tool), os.path.basename(tool)))
             log.append("generator %s failed:\n%s" % (os.path.basename(tool), out[-2000:]))
-    return ok
+    return failed
+
+
+def full_closure(pid, extra=()):
+    """all .vo files in the dependency closure of Properties/<pid>.vo (and of the extra targets)"""
+    dep = os.path.join(COQ, ".Makefile.d")
+    if not os.path.exists(dep):
+        return None
+    deps = {}
+    for line in open(dep):
+        if ":" not in line:
+            continue
+        lhs, rhs = line.split(":", 1)
+        tgt = [t for t in lhs.split() if t.endswith(".vo")]
+        if tgt:
+            deps[tgt[0]] = [d for d in rhs.split() if d.endswith(".vo")]
+    seen, todo = set(), ["Properties/%s.vo" % pid] + list(extra)
+    while todo:
+        t = todo.pop()
+        if t in seen:
+            continue
+        seen.add(t)
+        todo.extend(deps.get(t, []))
+    return seen
 
 
 def spec_closure(pid):
@@ -202,10 +236,14 @@ def build_proofs(pid, cfg, log, tier="quick"):
     """returns dict(proof_ok, obligations, discharged, assumptions, problems)"""
     res = dict(proof_ok=False, obligations=0, discharged=0, assumptions={}, problems=[])
     with Lock("coq"):
-        if not run_generators(log):
-            res["problems"].append("regeneration of coq/gen from the source failed")
+        gen_failed = run_generators(log)
         sh([os.path.join(VERIF, "tools", "mkcoqproject.sh")], timeout=120)
         targets = ["Properties/%s.vo" % pid] + ["Extract/%s.vo" % e for e in cfg.get("extract", [pid])]
+        if gen_failed:
+            clo = full_closure(pid, targets[1:])
+            mine = [g for g in gen_failed if clo is None or g in clo or not g.endswith(".vo")]
+            if mine:
+                res["problems"].append("regeneration from the source failed for %s, which this property's theorems or extracted model depend on" % ", ".join(mine))
         t0 = time.time()
         rc, out = sh(["timeout", "3000", "make", "-j%d" % NPROC] + targets, cwd=COQ, timeout=3100)
         log.append("make %s: rc=%d in %.1fs" % (" ".join(targets), rc, time.time() - t0))
@@ -283,6 +321,8 @@ def build_proofs(pid, cfg, log, tier="quick"):
     from stmt_hash import stmt_hash
     for key in stmt_closure(pid):
         full = os.path.join(COQ, key)
+        if key in REGENERATED:
+            continue
         if os.path.exists(full) and want.get("stmt:" + key) != stmt_hash(full):
             res["problems"].append("statement hash of %s (definitions and lemma statements, proofs left out) differs from statements.lock" % key)
     hits = forbidden_scan()
@@ -543,6 +583,11 @@ def shrink_case(pid, cfg, exe, driver, case, budget, still_fails):
 
 
 def check(pid, tier="quick", seed=0, replay=None):
+    if replay and not any(l.startswith("CASE ") for l in open(replay)):
+        # replay of a broken proof obligation / build / infrastructure report: there is no input to re-run, the
+        # reproduction is the check itself
+        print("replay file %s names no input (a proof, build or infrastructure report): re-running the %s check" % (replay, tier))
+        replay = None
     t0 = time.time()
     cfg = PROPS[pid]
     if cfg.get("components"):
@@ -657,6 +702,9 @@ def check(pid, tier="quick", seed=0, replay=None):
             nontrivial.add(hashlib.sha1(cases.get(c, c).encode()).hexdigest())
     # a case the harness could not run (a sparse 4 GiB mapping the machine refused) checks nothing: the regression cases
     # of F38 / F39 live there, so this is an infrastructure problem and not a pass
+    for t in cfg.get("required_tags", []):
+        if exe and driver and not tagcount.get(t):
+            infra.append("no case carried the tag %s: the oracle behind it did not run, so its half of the property was not examined" % t)
     if tagcount.get("skipped-nomem"):
         infra.append("%d case(s) were skipped because a large sparse mapping could not be created (tag skipped-nomem)" % tagcount["skipped-nomem"])
     implfaults = {}
